@@ -36,7 +36,7 @@ ObjNames == {"A", "B", "C", "D", "E", "F", "G", "H"}
 NoCirc == [cells |-> <<>>, nets |-> <<>>, rows |-> <<>>]
 Idle == [active |-> FALSE, obj |-> "", stage |-> "", entry |-> NoCirc, ncb |-> 0, firstDet |-> NoCirc,
          hasDet |-> FALSE, lastDet |-> NoCirc, lastWl |-> 0, lastLB |-> NoCirc, lastUB |-> NoCirc, hasLB |-> FALSE, hasUB |-> FALSE,
-         steps |-> <<>>, cb |-> FALSE, thrower |-> "none", inflight |-> 0, solves |-> 0, lastModel |-> ""]
+         steps |-> <<>>, cb |-> FALSE, thrower |-> "none", inflight |-> 0, solves |-> 0, lastModel |-> -1]
 NoHist == [s \in {"global", "legalize", "detailed"} |-> [done |-> FALSE, ok |-> FALSE, entry |-> NoCirc, result |-> NoCirc]]
 
 F(p, why, sig) == [p |-> p, why |-> why, sig |-> sig]
@@ -383,11 +383,11 @@ FreeEv == /\ Is("Free")
 \* at most the two solves of one step are in flight, both have ended before the next callback or the end of the call.
 SolveEv == /\ Is("Solve") /\ call.active /\ call.stage = "global"
            /\ LET n == IF Ev.phase = "enter" THEN call.inflight + 1 ELSE call.inflight - 1
-                  sameModel == Ev.phase = "exit" /\ Ev.order = 2 /\ Ev.model = call.lastModel IN
+                  sameModel == Ev.phase = "exit" /\ Ev.order = 2 /\ Ev.mid = call.lastModel IN
               /\ call' = [call EXCEPT !.inflight = n, !.solves = @ + 1,
-                                       !.lastModel = IF Ev.phase = "exit" THEN Ev.model ELSE @]
+                                       !.lastModel = IF Ev.phase = "exit" THEN Ev.mid ELSE @]
               /\ fails' = (IF n < 0 \/ n > 2 THEN {F("C08", <<"solves in flight", n>>, "solve-nesting")} ELSE {}) \cup
-                          (IF sameModel THEN {F("C08", <<"the two solves of one step ran on the same net model", Ev.model>>, "solve-same-model")} ELSE {})
+                          (IF sameModel THEN {F("C08", <<"the two solves of one step ran on the same net model", Ev.mid>>, "solve-same-model")} ELSE {})
            /\ l' = l + 1 /\ UNCHANGED <<run, scen, params, base, objs, hist, expect>>
 Schedule == /\ Is("Schedule") /\ ~call.active /\ fails' = {}
             /\ l' = l + 1 /\ UNCHANGED <<run, scen, params, base, objs, call, hist, expect>>
